@@ -305,3 +305,11 @@ def _pow_log_quarter(inp):
     return bc - t.bit_length() > int(c["prec"]) + 30
 
 
+
+@predicate("findpoly_rounded_powers_ok")
+def _findpoly_rounded_powers_ok(inp):
+    """C35: the returned polynomial passes the acceptance test against the rounded powers that were handed to pslq"""
+    return inp.get("rounded_powers_ok") is True
+
+
+import special_findings  # noqa: E402  (C18/C19/C22 predicates; must stay at the end of this file)
